@@ -27,6 +27,8 @@ var langTags = map[string]language.Tag{
 	// other than Japanese, Enga, Middle English with a region): cutting a tag to two characters turns them into ja / en
 	"jam": language.MustParse("jam"), "jam-JM": language.MustParse("jam-JM"), "jaa": language.MustParse("jaa"), "jpx": language.MustParse("jpx"),
 	"enq": language.MustParse("enq"), "enm-GB": language.MustParse("enm-GB"), "jam-Latn": language.MustParse("jam-Latn"),
+	// "ja" / "en" spelled by a subtag that is not the language: script Jamo, private-use subtags
+	"ko-Jamo": language.MustParse("ko-Jamo"), "fr-x-ja": language.MustParse("fr-x-ja"), "de-x-en": language.MustParse("de-x-en"),
 }
 
 // regional variants of English / Japanese: their names are unspecified (not validated), but using
@@ -298,7 +300,7 @@ func cmdReport(args []string) {
 	for i := range recs {
 		recs[i] = NewRecorder()
 	}
-	langs := []string{"en", "ja", "und", "fr", "de", "zh", "und-JP", "fr-CA", "ko-KR", "zh-Hant-JP", "jam", "enq", "jam-JM", "jaa", "enm-GB"}
+	langs := []string{"en", "ja", "und", "fr", "de", "zh", "und-JP", "fr-CA", "ko-KR", "zh-Hant-JP", "jam", "enq", "jam-JM", "jaa", "enm-GB", "ko-Jamo", "fr-x-ja"}
 	nb := v3BaseCount()
 	// prologue: reports in regional variants of en / ja first (history: they must not poison later ones)
 	if em, err := m3.NewEnvironmental().Decode("CVSS:3.1/AV:A/AC:H/PR:L/UI:N/S:C/C:L/I:H/A:L/E:P/RL:O/RC:U/CR:L/IR:M/AR:L/MAV:P/MAC:L/MPR:N/MUI:R/MS:C/MC:H/MI:H/MA:H"); err == nil {
